@@ -8,6 +8,7 @@ import TrashVerif.Model.Date
 import TrashVerif.Model.PathStr
 import TrashVerif.Spec.C03
 import TrashVerif.Model.Index
+import TrashVerif.Driver.World
 open Lean TrashVerif
 
 def hexOf (j : Json) (k : String) : Except String Bytes := do
@@ -35,7 +36,7 @@ def handle (j : Json) : Except String Json := do
   | "ping" => pure (Json.mkObj [("r", "pong")])
   | "quote" => do
     let s ← hexOf j "s"
-    pure (Json.mkObj [("r", jopt (quote? s))])
+    pure (Json.mkObj [("r", jhex (quote s))])
   | "unquote" => do
     let s ← hexOf j "s"
     pure (Json.mkObj [("r", jhex (unquote s)), ("lossy", unquoteLossy s)])
@@ -62,8 +63,7 @@ def handle (j : Json) : Except String Json := do
   | "format" => do
     let loc ← hexOf j "loc"
     let d ← dateOf j "date"
-    if validUtf8 loc then pure (Json.mkObj [("r", jhex (formatTrashinfoWith loc d.fmt))])
-    else pure (Json.mkObj [("r", Json.null)])
+    pure (Json.mkObj [("r", jhex (formatTrashinfoWith loc d.fmt))])
   | "olderThan" => do
     let days ← natOf j "days"
     let now ← dateOf j "now"
@@ -88,6 +88,10 @@ def handle (j : Json) : Except String Json := do
   | "inScope" => do
     pure (Json.mkObj [("r", inScope (← hexOf j "dir") (← hexOf j "loc"))])
   | "emptyReply" => do pure (Json.mkObj [("r", emptyReplyYes (← hexOf j "s"))])
+  | "run" => do
+    match ← j.getObjValAs? String "cmd" with
+    | "put" => World.runPutWorld j
+    | c => throw s!"unknown cmd {c}"
   | "normpath" => do pure (Json.mkObj [("r", jhex (normpath (← hexOf j "s")))])
   | "dirname" => do pure (Json.mkObj [("r", jhex (dirname (← hexOf j "s")))])
   | "basename" => do pure (Json.mkObj [("r", jhex (basename (← hexOf j "s")))])
